@@ -37,15 +37,19 @@ CONSTANTS GenMinCalls      \* print only histories of at least this length (simu
 GenMethods == <<"GET", "OPTIONS", "POST">>
 GenHosts   == <<"", "one.test", "three.test", "other.example">>
 GenPaths   == <<"/a", "/a/x", "/c">>
+GenOrigins == <<"", OA, "http://evil.test">>     \* the Origin header the harness sends with the request ("" = none)
 GenReqs == [i \in 1..(Len(GenMethods) * Len(GenHosts) * Len(GenPaths)) |->
               LET n == i - 1 IN
               [m |-> GenMethods[(n % Len(GenMethods)) + 1],
                host |-> GenHosts[((n \div Len(GenMethods)) % Len(GenHosts)) + 1],
-               path |-> GenPaths[(n \div (Len(GenMethods) * Len(GenHosts))) + 1]]]
+               path |-> GenPaths[(n \div (Len(GenMethods) * Len(GenHosts))) + 1],
+               origin |-> GenOrigins[((n + (n \div Len(GenMethods))) % Len(GenOrigins)) + 1]]]
 
 BareCalls == [i \in DOMAIN calls |-> [op |-> calls[i].op, pat |-> calls[i].pat, hk |-> calls[i].hk,
                                       hp |-> calls[i].hp, cors |-> calls[i].cors]]
-GenVector == [calls |-> BareCalls, exp |-> [i \in DOMAIN GenReqs |-> Expected(app, calls, GenReqs[i])]]
+\* exp: what today's code answers (strict); acc: what the statement alone accepts (AcceptSets, sets of token sets)
+GenVector == [calls |-> BareCalls, exp |-> [i \in DOMAIN GenReqs |-> Expected(app, calls, GenReqs[i])],
+              acc |-> [i \in DOMAIN GenReqs |-> AcceptSets(app, calls, GenReqs[i])]]
 GenInit == Init /\ PrintT(ToJson([reqs |-> GenReqs]))
 GenInv == Len(calls) >= GenMinCalls => PrintT(ToJson(GenVector))
 =============================================================================
